@@ -117,7 +117,7 @@ theorem vint_small (k C D v : Nat) (r : Bytes) (hk1 : 1 ≤ k) (hk8 : k ≤ 8)
   rw [hw]
   simp only [readUsize, bind_apply, leBytes_succ, List.cons_append, peekU8_cons, htz]
   rw [if_neg (by omega)]
-  have hs := readSlice_append' (leBytes_length (k' + 1) ((2 * v + 1) * C)) r
+  have hs := readSlice_append_len (leBytes_length (k' + 1) ((2 * v + 1) * C)) r
   simp only [leBytes_succ, List.cons_append] at hs
   simp only [bind_apply, hs, pure_apply]
   have ho := ofLeBytes_leBytes_lt hX
